@@ -28,6 +28,13 @@ from typing import Any, Callable, Dict, FrozenSet, Iterable, List, Optional, Seq
 from .loader import AnalysisError, ClassInfo, FuncInfo, Module, Program, walk_shallow
 from .report import Undecided
 
+_SPAWNERS = ("ensure_future", "create_task", "run_coroutine_threadsafe")
+
+
+def _spawned_not_awaited(node: ast.AST) -> bool:
+    par = getattr(node, "_parent", None)
+    return isinstance(par, ast.Call) and node in par.args and ast.unparse(par.func).split(".")[-1] in _SPAWNERS
+
 Value = tuple
 
 TOPV = ("top", "")
@@ -346,6 +353,10 @@ class Client:
 
     def await_raises(self, interp: "Interp", node: ast.AST) -> List[str]:
         return []
+
+    def after_await(self, interp: "Interp", node: ast.AST, st: State) -> State:
+        """State after the coroutine was suspended and resumed: other tasks ran in between (clients drop what they may have changed)."""
+        return st
 
     def on_yield(self, interp: "Interp", val: Value, node: ast.AST, st: State) -> State:
         return st
@@ -1721,7 +1732,7 @@ class Interp:
         for v, s in self._ev(e.value, st, out):
             for ex in self.client.await_raises(self, e):
                 out.exc.append((ex, s))
-            res.append((v, s))
+            res.append((v, self.client.after_await(self, e, s)))
         return res
 
     def e_Yield(self, e: ast.Yield, st, out):
@@ -2031,6 +2042,10 @@ class Interp:
         if fi is not None and (fi.is_generator()):
             gv = ("gen", fi.fq, args, kwargs, recv, captured)
             return [(gv, st)]
+        if fi is not None and fi.is_async and _spawned_not_awaited(node):
+            # `ensure_future(self.watch(receive))` / `create_task(coro())`: calling an `async def` only creates the coroutine object;
+            # handed to a spawner it runs as ANOTHER task, concurrently - its body is not part of this path
+            return [(("coro", fi.fq, self.tag(node)), st)]
         if fi is not None and len(self.frames) <= self.client.max_inline_depth and self.client.want_inline(fi, self, node):
             gv = ("gen", fi.fq, args, kwargs, recv, captured)
             return self.inline_call(fi, gv, st, out, node)
